@@ -20,20 +20,24 @@ GEN_FILES = ["BiotiteModel/Gen/C11.lean"]
 TECHNIQUE = ("Lean 4 proof (induction over trace columns, CIGAR op lists and the guide tree) + differential correspondence with "
              "alignment.py / cigar.py / fasta/convert.py / multiple.pyx")
 LEVEL_TEXT = ("Lean theorems for traces of every length: for the whole alignment, trace_from_strings(get_gapped_sequences) gives the "
-              "trace back (shifted to each row's start offset; equal for rows starting at 0) and the FASTA round trip returns trace "
-              "and sequences (per-row theorems + transpose lemma); the code matrix transposed is the column-by-column code of every "
-              "sequence (dtype-independent); find_terminal_gaps = first column where every sequence has started / one past the last "
-              "where none has ended; remove_terminal_gaps / remove_gaps return exactly the selected columns and keep a valid trace; "
-              "identity (3 modes) and score (terminal penalty on/off, affine cost of every maximal gap run per sequence) equal a "
-              "column-by-column recomputation; the CIGAR writer accepts exactly the traces of a decidable predicate, and for every "
-              "accepted trace with consecutive indices reader(writer) is the identity on the trimmed trace for every combination of "
-              "hard_clip, distinguish_matches, introns and include_terminal_gaps (tuples and string); parse(print ops) = ops; run-length "
+              "trace back (shifted to each row's start offset; equal for rows starting at 0; contiguity is shown necessary by a witness) "
+              "and the FASTA round trip returns trace and sequences for any set of additional gap characters; the code matrix "
+              "transposed is the column-by-column code of every sequence (dtype-independent) and get_symbols decodes every row through "
+              "its own alphabet; find_terminal_gaps = first column where every sequence has started / one past the last where none has "
+              "ended; remove_terminal_gaps / remove_gaps return exactly the selected columns and keep a valid trace; identity (3 modes), "
+              "pairwise identity (3 modes) and score (terminal penalty on/off, affine cost of every maximal gap run per sequence) equal "
+              "a column-by-column recomputation; the CIGAR writer accepts exactly the traces of a decidable predicate (no double gap, "
+              "consecutive positions - after fix b62f18f5 -, introns inside reference gaps, ...), and for every accepted trace, with no "
+              "further hypothesis, reader(writer) is the identity on the trimmed trace for every combination of hard_clip, "
+              "distinguish_matches, introns and include_terminal_gaps (tuples and string); parse(print ops) = ops; run-length "
               "aggregation is lossless and maximal; the merge step of the progressive alignment keeps every row's gap-stripped content "
               "and creates no all-gap column, and by induction over any guide tree align_multiple returns a valid trace (one row per "
-              "input in input order, row k visits exactly input k, no all-gap column) with an order that is a permutation (the tree's "
-              "leaf list). The pairwise traces inside align_multiple are assumed to be valid global traces (C08's theorem; checked per "
-              "call by the model in the correspondence). Partial: guide-tree/distance computation (float), pairwise identity and numpy "
-              "indexing are exercised (correspondence + independent oracle), not proved.")
+              "input in input order, row k visits exactly input k, no all-gap column) with an order that is the tree's leaf list (a "
+              "permutation iff the tree's leaves are; as_binary keeps the leaves). The only assumption on align_optimal is stated "
+              "exactly (GlobalValid per inner node) and the driver's checker is proved equivalent to it (checked per call on recorded "
+              "traces). The Feng-Doolittle distance formula is modelled exactly (integers): theorems state when it has a value, and the "
+              "two known multiple.pyx findings are witness theorems. Partial: UPGMA/float distances, numpy indexing and the unvalidated "
+              "custom guide tree (known finding) are exercised (correspondence + independent oracle), not proved.")
 LEVEL_NOTE = ("Trusted: Lean kernel + {propext, Classical.choice, Quot.sound}; harness/props/c11.py (generators, adapter, ast translator "
               "of CigarOp/_str_to_op/reader branches); numpy slicing/where/argsort/unique modelled by documented semantics; align_optimal "
               "is C08's subject and enters as a hypothesis; UPGMA/float distances only through 'every leaf once' on the returned tree.")
@@ -502,8 +506,96 @@ def gapchar_cases(rng, n_cases):
         yield {"kind": "fastagaps", "ops": ops, "stype": stype, "plain": plain, "subst": subst, "chars": chars}
 
 
+def _mtree_text(x):
+    return "(" + ",".join(_mtree_text(y) for y in x) + ")" if isinstance(x, list) else str(x)
+
+
+def tree_cases(rng, n_cases):
+    """as_binary on multifurcating guide trees (also nodes with a single child)"""
+    for _ in range(n_cases):
+        n = rng.choice([2, 3, 4, 5, 6, 8])
+        t = _rand_tree(rng, range(n), multi=True)
+
+        def wrap(x):
+            if isinstance(x, list):
+                x = [wrap(y) for y in x]
+                if rng.random() < 0.15:
+                    return [x]
+                return x
+            return [x] if rng.random() < 0.1 else x
+        t = wrap(t)
+        if not isinstance(t, list):
+            t = [t]
+        yield {"kind": "asbin", "ops": ["asbin " + _mtree_text(t)], "mtree": t}
+
+
+def dist_cases(rng, n_cases):
+    """two sequences through the Feng-Doolittle distance of _get_distance_matrix: which outcome (finite, ZeroDivisionError,
+    infinite distance, documented rejection); the quantities entering the formula are recorded from the real calls"""
+    for _ in range(n_cases):
+        style = rng.choice(["homopolymer", "homopolymer", "identical", "related", "unrelated", "short"])
+        size = 4
+        if style == "homopolymer":
+            x = rng.randrange(size)
+            seqs = [[x] * rng.randint(1, 8), [x] * rng.randint(1, 8)]
+            if rng.random() < 0.5:
+                seqs[1] = list(seqs[0])
+        elif style == "identical":
+            b = [rng.randrange(size) for _ in range(rng.randint(1, 8))]
+            seqs = [b, list(b)]
+        elif style == "short":
+            seqs = [[rng.randrange(2) for _ in range(rng.randint(1, 3))] for _ in range(2)]
+        elif style == "related":
+            b = [rng.randrange(size) for _ in range(rng.randint(2, 10))]
+            c = list(b)
+            for _ in range(rng.randint(0, 2)):
+                if len(c) > 1 and rng.random() < 0.5:
+                    del c[rng.randrange(len(c))]
+                else:
+                    c[rng.randrange(len(c))] = rng.randrange(size)
+            seqs = [b, c]
+        else:
+            seqs = [[rng.randrange(size) for _ in range(rng.randint(1, 10))] for _ in range(2)]
+        gap = rng.choice([-10, -5, -1, -3, (-10, -1), (-5, -2), (-2, -1)])
+        case = {"kind": "dist/" + style, "alph": "nuc", "seqs": seqs, "gap": list(gap) if isinstance(gap, tuple) else gap,
+                "tp": rng.random() < 0.5, "dist": None, "tree": None, "mseed": rng.randint(0, 10 ** 6)}
+        r = _run_dist(case)
+        if r is not None and r.get("line"):
+            case["ops"] = [r["line"]]
+        yield case
+
+
+def badtree_cases(rng, n_cases):
+    """malformed stream: custom guide trees that miss a sequence or contain one twice (nothing validates them)"""
+    for _ in range(n_cases):
+        n = rng.choice([3, 4, 5])
+        base = [rng.randrange(4) for _ in range(rng.randint(4, 9))]
+        seqs = []
+        for _ in range(n):
+            sq = list(base)
+            if rng.random() < 0.7:
+                sq[rng.randrange(len(sq))] = rng.randrange(4)
+            seqs.append(sq)
+        leaves = list(range(n))
+        how = rng.choice(["missing-leaf", "duplicate-leaf"])
+        if how == "missing-leaf":
+            leaves.pop()          # indices must stay 0..k-1 for Tree()
+        else:
+            leaves[rng.randrange(n - 1)] = leaves[-2] if leaves[-2] != leaves[0] else leaves[0]
+            leaves = leaves[:-1] + [leaves[0]]
+            if sorted(set(leaves)) != list(range(len(set(leaves)))):
+                continue
+        tree = _rand_tree(rng, leaves, multi=False)
+        dist = [[0.0 if i == j else 0.5 + 0.25 * abs(i - j) for j in range(n)] for i in range(n)]
+        yield {"kind": "msa/badtree", "alph": "nuc", "seqs": seqs, "gap": -5, "tp": True, "dist": dist, "tree": tree,
+               "mseed": rng.randint(0, 10 ** 6), "badtree": how}
+
+
 def cases(rng, tier):
     q = tier == "quick"
+    yield from tree_cases(rng, 60 if q else 1000)
+    yield from dist_cases(rng, 80 if q else 2000)
+    yield from badtree_cases(rng, 6 if q else 40)
     yield from mixed_cases(rng, 150 if q else 2500)
     yield from gapchar_cases(rng, 120 if q else 2000)
     yield from big_cases(rng, 120 if q else 2000)
@@ -771,6 +863,20 @@ def run_impl(case):
                 back = align.read_alignment_from_cigar("" if w[1] == "_" else w[1], int(w[2]), ref, ref)
                 return "ok " + _tr(back.trace.tolist())
             out.append(_fmt(f_read))
+        elif w[0] == "asbin":
+            def f_asbin():
+                from biotite.sequence.phylo import Tree, TreeNode, as_binary
+
+                def build(x):
+                    if isinstance(x, list):
+                        ch = [build(y) for y in x]
+                        return TreeNode(ch, [1.0] * len(ch))
+                    return TreeNode(index=int(x))
+                return "ok " + _tree_text(as_binary(Tree(build(case["mtree"]))).root)
+            out.append(_fmt(f_asbin))
+        elif w[0] == "dist":
+            r = _run_dist(case)
+            out.append("ok " + r["outcome"] if r else "CRASH")
         elif w[0] == "msa":
             r = _run_msa(case)
             if r[0] == "ok":
@@ -864,6 +970,61 @@ def _msa_call(case):
             [[int(x) for x in s.code.tolist()] for s in seqs])
 
 
+def _dist_call(case):
+    import numpy as np
+    import biotite.sequence.align as align
+    import biotite.sequence.align.multiple as M
+    seqs, matrix, gap, _dist, _tree, k = _msa_inputs(case)
+    calls = []
+    orig = M.align_optimal
+
+    def rec(*a, **kw):
+        res = orig(*a, **kw)
+        calls.append((int(res[0].score), res[0].trace.astype(np.int64)))
+        return res
+    M.align_optimal = rec
+    try:
+        try:
+            align.align_multiple(seqs, matrix, gap_penalty=gap, terminal_penalty=case["tp"])
+            outcome = "finite"
+        except ZeroDivisionError:
+            outcome = "zeroDivision"
+        except ValueError as e:
+            outcome = "infinite" if "contains infinity" in str(e) else "belowRandom" if "randomized alignment" in str(e) else "other:" + str(e)[:40]
+    finally:
+        M.align_optimal = orig
+    if len(calls) < 3:
+        return {"outcome": outcome, "line": None}
+    (saa, _), (s, tr), (sbb, _) = calls[0], calls[1], calls[2]
+    n_open, n_ext = M._count_gaps(tr, case["tp"])
+    sm = matrix.score_matrix()
+    ca = np.bincount(np.array(case["seqs"][0], dtype=int), minlength=k)
+    cb = np.bincount(np.array(case["seqs"][1], dtype=int), minlength=k)
+    pair_sum = int(sum(int(sm[x, y]) * int(ca[x]) * int(cb[y]) for x in range(k) for y in range(k)))
+    go, ge = (gap, gap) if isinstance(gap, int) else gap
+    ln = len(tr)
+    r = pair_sum + ln * (int(n_open) * go + int(n_ext) * ge)
+    num, den = 2 * ln * s - 2 * r, ln * (saa + sbb) - 2 * r
+    line = f"dist {s} {saa} {sbb} {pair_sum} {ln} {int(n_open)} {int(n_ext)} {go} {ge}"
+    if pair_sum % ln != 0 and (num == 0 or den == 0):
+        line = None        # float32 rounding of pairSum / L decides at the boundary; the exact model does not apply
+    return {"outcome": outcome, "line": line, "num": num, "den": den}
+
+
+_DIST_CACHE = {}
+
+
+def _run_dist(case):
+    from common import sandbox, util
+    key = util.jdump({k: v for k, v in case.items() if k in ("alph", "seqs", "gap", "tp", "mseed")})
+    if key not in _DIST_CACHE:
+        import biotite.sequence.align.multiple  # noqa: F401
+        import biotite.sequence.phylo  # noqa: F401
+        res = sandbox.run_forked(_dist_call, case, timeout=60)
+        _DIST_CACHE[key] = res[1] if res[0] == "ok" else None
+    return _DIST_CACHE[key]
+
+
 _MSA_CACHE = {}
 
 
@@ -939,6 +1100,10 @@ def oracle(case):
         return _oracle_big(case)
     if kind == "fastagaps":
         return _oracle_gapchars(case)
+    if kind == "asbin":
+        return _oracle_asbin(case)
+    if kind.startswith("dist/"):
+        return _oracle_dist(case)
     if kind.startswith("msa/"):
         return _oracle_msa(case)
     if kind == "fromstrings":
@@ -1212,6 +1377,14 @@ def _oracle_trace(case):
         if any(c[0] < 0 and c[1] < 0 for c in pair) or not any(c[1] >= 0 for c in pair):
             continue
         if not (_contig(pair, 0) and _contig(pair, 1)):
+            # skipped positions cannot be written as a CIGAR: the written part must be refused, not written as matches
+            wr = _trim(pair)
+            if not (_contig(wr, 0) and _contig(wr, 1)):
+                try:
+                    cig = align.write_alignment_to_cigar(ali, ri, si)
+                    v.append(("C11/cigar/write/skipped-positions-accepted", f"{pair} -> {cig!r}, which reads back as a different alignment"))
+                except ValueError:
+                    pass
             continue
         v += _oracle_cigar(case, ali, ri, si, pair, strs)
     return v
@@ -1307,9 +1480,56 @@ def _leaves_text(t):
     return [int(x) for x in re.findall(r"\d+", t)]
 
 
+def _oracle_asbin(case):
+    """as_binary keeps every leaf exactly once, in order, and every inner node has two children"""
+    import re
+    out = run_impl(case)[0]
+    if not out.startswith("ok "):
+        return [("C11/tree/as_binary/rejected", f"{case['mtree']} -> {out}")]
+    txt = out[3:]
+    v = []
+    if [int(x) for x in re.findall(r"\d+", txt)] != _flatten(case["mtree"]):
+        v.append(("C11/tree/as_binary/leaves", f"{case['mtree']} -> {txt}"))
+    depth_commas = {}
+    d = 0
+    for ch in txt:
+        if ch == "(":
+            d += 1
+            depth_commas[d] = 0
+        elif ch == ",":
+            depth_commas[d] += 1
+        elif ch == ")":
+            if depth_commas[d] != 1:
+                v.append(("C11/tree/as_binary/not-binary", f"{case['mtree']} -> {txt}"))
+                break
+            d -= 1
+    return v
+
+
+def _oracle_dist(case):
+    """two alignable sequences must get a distance unless the similarity is below the random expectation (documented)"""
+    r = _run_dist(case)
+    if r is None:
+        return [("C11/msa/crash", f"align_multiple crashed on {case['seqs']}")]
+    what = f"seqs={case['seqs']} gap={case['gap']} tp={case['tp']}: {r['outcome']} (2L(S-Srand)={r.get('num')}, 2L(Smax-Srand)={r.get('den')})"
+    if r["outcome"] == "zeroDivision":
+        return [("C11/msa/distances/ZeroDivisionError", what)]
+    if r["outcome"] == "infinite":
+        return [("C11/msa/distances/infinite-distance", what)]
+    if r["outcome"].startswith("other"):
+        return [("C11/msa/distances/other-rejection", what)]
+    return []
+
+
 def _oracle_msa(case):
     r = _run_msa(case)
     n = len(case["seqs"])
+    if case.get("badtree"):
+        # the supplied tree does not contain every sequence exactly once: the call must not return normally
+        if r[0] == "ok":
+            return [(f"C11/msa/guide-tree-not-validated/{case['badtree']}",
+                     f"align_multiple accepted guide tree {case['tree']} for {n} sequences and returned {len(r[1][0]['trace'][0]) if r[1][0]['trace'] else '?'} rows, order {r[1][1]}")]
+        return []
     if r[0] == "crash":
         return [("C11/msa/crash", f"align_multiple crashed on {case['seqs']}")]
     if r[0] == "err":
